@@ -298,6 +298,7 @@ func shiftedProj(o *Out, by int64) string {
 
 func cmdPerturb(prop string, n int, seed uint64, driver, out string) (*Result, error) {
 	prof := profileFor(prop)
+	prof.PShuffle = 0
 	prof.PDocNoise = 0 // duplicated / shuffled properties would make "the rules list" ambiguous
 	root := NewRng(seed ^ hashSeed(prop+"perturb"))
 	res := &Result{Prop: prop, Mode: "perturb", Seed: seed, Distribution: map[string]int{},
